@@ -31,6 +31,7 @@ type Anchors struct {
 	Dispatch      *ssa.Function // (*SS).serveStream
 	ClientReasm   *ssa.Function // (*CS).readMsgLocked
 	ServerReasm   *ssa.Function // (*SS).readMsgLocked
+	ClientReasmEntry, ServerReasmEntry *ssa.Function // what the read methods call (the reassembly function, or a wrapper split off it)
 	ClientRead    *ssa.Function // (*CS).readMsg
 	ServerRead    *ssa.Function // (*SS).readMsg
 	ClientAccept  *ssa.Function // (*CS).acceptServerFrame
@@ -282,6 +283,97 @@ func (w *World) Anchors() *Anchors {
 			}
 		})
 	}
+	// anchors found by an operation they contain: when that operation was split off into a helper (one synchronous call
+	// site, in a method of the same type), the anchor is the method that uses the helper. The pinned tree's own anchors
+	// of this group all have several call sites, so this only moves after such a split.
+	climbSame := func(fn *ssa.Function) *ssa.Function {
+		for i := 0; fn != nil && i < 4; i++ {
+			if fn.Parent() != nil {
+				break
+			}
+			if obj := fn.Object(); obj == nil || obj.Exported() {
+				break
+			}
+			sites := w.callSitesOf(fn)
+			if len(sites) != 1 {
+				break
+			}
+			call, isCall := sites[0].(*ssa.Call)
+			if !isCall || staticCallee(call) == nil {
+				break
+			}
+			up := call.Parent()
+			r1, r2 := recvNamed(fn), recvNamed(up)
+			if up.Parent() != nil || r1 == nil || r2 == nil || r1.Obj() != r2.Obj() {
+				break
+			}
+			fn = up
+		}
+		return fn
+	}
+	a.ClientReasmEntry, a.ServerReasmEntry = climbSame(a.ClientReasm), climbSame(a.ServerReasm)
+	a.ClientFinish, a.ServerHalf = climbSame(a.ClientFinish), climbSame(a.ServerHalf)
+	// accept anchors, refined top-down: the first method of the stream type on the call path from the receive loop to the
+	// receiver's accept call (the frame switch may have been split into per-frame methods, the loop body into a helper)
+	refineAccept := func(loop *ssa.Function, streamT *types.Named, cur *ssa.Function) *ssa.Function {
+		if loop == nil || streamT == nil {
+			return cur
+		}
+		var containsAccept func(fn *ssa.Function, depth int) bool
+		containsAccept = func(fn *ssa.Function, depth int) bool {
+			found := false
+			allInstrsLocal(fn, func(in ssa.Instruction) {
+				ci, ok := in.(*ssa.Call)
+				if !ok || found {
+					return
+				}
+				if ci.Call.IsInvoke() {
+					if ifaceMethodRole(ci.Call.Method) == "accept" {
+						found = true
+					}
+					return
+				}
+				if g := staticCallee(ci); g != nil && depth < 3 && g.Blocks != nil && w.inRoot(g) {
+					if rn := recvNamed(g); rn != nil && rn.Obj() == streamT.Obj() && containsAccept(g, depth+1) {
+						found = true
+					}
+				}
+			})
+			return found
+		}
+		var best *ssa.Function
+		var walk func(fn *ssa.Function, depth int)
+		walk = func(fn *ssa.Function, depth int) {
+			allInstrsLocal(fn, func(in ssa.Instruction) {
+				ci, ok := in.(*ssa.Call)
+				if !ok || best != nil {
+					return
+				}
+				g := staticCallee(ci)
+				if g == nil || g.Blocks == nil || !w.inRoot(g) {
+					return
+				}
+				rn := recvNamed(g)
+				if rn != nil && rn.Obj() == streamT.Obj() {
+					if containsAccept(g, 0) {
+						best = g
+					}
+					return
+				}
+				// a helper of the loop's own type (loop body split off)
+				if rn != nil && recvNamed(loop) != nil && rn.Obj() == recvNamed(loop).Obj() && depth < 2 && g.Object() != nil && !g.Object().Exported() {
+					walk(g, depth+1)
+				}
+			})
+		}
+		walk(loop, 0)
+		if best != nil {
+			return best
+		}
+		return cur
+	}
+	a.ClientAccept = refineAccept(a.ClientLoop, a.CS, a.ClientAccept)
+	a.ServerAccept = refineAccept(a.ServerLoop, a.SS, a.ServerAccept)
 	// emit-site based anchors
 	// the function an emit site belongs to: out of function literals, and out of unexported functions that are used at
 	// exactly one place (a method started with `go`, an extracted helper) into the function that uses them
@@ -363,8 +455,8 @@ func (w *World) Anchors() *Anchors {
 	a.ClientSend, a.ClientRecv = w.methodFn(a.CS, "SendMsg"), w.methodFn(a.CS, "RecvMsg")
 	a.ServerSend, a.ServerRecv = w.methodFn(a.SS, "SendMsg"), w.methodFn(a.SS, "RecvMsg")
 	// readMsg = caller of the reassembly function in the same type (not itself)
-	a.ClientRead = soleRootCaller(w, a.ClientReasm)
-	a.ServerRead = soleRootCaller(w, a.ServerReasm)
+	a.ClientRead = soleRootCaller(w, a.ClientReasmEntry)
+	a.ServerRead = soleRootCaller(w, a.ServerReasmEntry)
 
 	req := map[string]any{
 		"Ch": a.Ch, "CS": a.CS, "SS": a.SS, "Sv": a.Sv,
